@@ -68,6 +68,11 @@ def run(report, db, tier):
     from .c09 import mismatch
     mismatch(report, db, cg, M, P, rule_id='R10.5m')
     stateless(report, db, M, fi, paths)
+    from ..common import borrow
+    from . import c03
+    borrow(report, 'R10.3v', "the request id echoed by the plugin arm survives the VarInt codec: what read returns, send accepts (C03's rules)",
+           lambda rid, c: c.startswith(('read:', 'varlong:', 'send:negative')),
+           lambda sub: c03.run(sub, db, tier))
     transport_lookup(report, db, cg, M)
 
 
